@@ -503,3 +503,12 @@ pub fn neg_try_reserve_from_hint<I: Iterator<Item = u32>>(it: I) -> Vec<u32> {
     v.extend(it);
     v
 }
+
+// ---------------------------------------------------------------- R10.5 unchecked operations
+pub fn pos_unwrap_unchecked(x: Option<u32>) -> u32 {
+    debug_assert!(x.is_some());
+    unsafe { x.unwrap_unchecked() }
+}
+pub fn neg_checked_expect(x: Option<u32>) -> u32 {
+    x.expect("contract")
+}
